@@ -242,6 +242,19 @@ def r2(ctx, rep):
               "display_ident_part must escape empty names, a forbidden first character and any forbidden later character", file=dp["file"], line=dp["l"], fn=dp["path"])
 
 
+def _inner_match(syn, owner, body):
+    """The per-operator match of a `Binary` arm: inline, or in a private helper of the same file called with the operator."""
+    inner = body if body.get("k") == "match" else tail_expr(body)
+    if inner is not None and inner.get("k") == "call" and len(inner["a"]) == 1:
+        hs = [h for h in syn.fns if h["crate"] == owner["crate"] and h["file"] == owner["file"] and h["name"] == last_seg(show(inner["f"])) and "body" in h]
+        if len(hs) == 1:
+            t = tail_expr(hs[0]["body"])
+            inner = t if t is not None and t.get("k") == "match" else inner
+    if inner is None or inner.get("k") != "match":
+        raise AnchorMissing(f"{owner['path']}: per-operator match of the Binary arm")
+    return inner
+
+
 def fmt_tables(syn):
     f = syn.fn("codegen::ast::binding_strength", crate="prqlc")
     outer = tables.first_match(f, "expr")
@@ -252,7 +265,7 @@ def fmt_tables(syn):
             h = pat_head(alt)
             body = arm["body"]
             if isinstance(h, str) and last_seg(h) == "Binary":
-                inner = body if body.get("k") == "match" else tail_expr(body)
+                inner = _inner_match(syn, f, body)
                 for head, g, b, line, _ in tables.match_rows(inner):
                     if isinstance(head, str) and head != "_":
                         ops[last_seg(head)] = tables.arm_value(b)
@@ -267,7 +280,7 @@ def fmt_tables(syn):
         for alt in pat_alts(arm["pat"]):
             h = pat_head(alt)
             if isinstance(h, str) and last_seg(h) == "Binary":
-                inner = arm["body"] if arm["body"].get("k") == "match" else tail_expr(arm["body"])
+                inner = _inner_match(syn, a, arm["body"])
                 for head, g, b, line, _ in tables.match_rows(inner):
                     v = tables.arm_value(b)
                     v = last_seg(v[1]) if isinstance(v, tuple) else v
